@@ -9,7 +9,9 @@
    module evaluates the same operators on states recorded from the code. *)
 EXTENDS Naturals, Integers, Sequences, FiniteSets
 
-CONSTANT N                     \* longest stream considered
+CONSTANTS N,                   \* longest stream considered
+          Codes,               \* error codes the application may pass to stop()
+          F                    \* most STOP_SENDING frames in flight at once (bound)
 NONE == -1
 Byte(o) == (31 * o + 7) % 251  \* payload convention of the drivers
 
@@ -19,7 +21,7 @@ View == st
 
 InitState == [got |-> {}, delivered |-> 0, final |-> NONE, highest |-> 0,
               finished |-> FALSE, endSig |-> FALSE, resetAcc |-> FALSE,
-              stopPending |-> FALSE]
+              stopPending |-> FALSE, stopCode |-> NONE, stopInFlight |-> 0]
 
 \* length of the contiguous prefix of S starting at 0
 Prefix(S) == CHOOSE k \in 0..(Cardinality(S)) :
@@ -60,10 +62,20 @@ HandleResetF(s, fs) ==
   ELSE [st |-> [s EXCEPT !.final = fs, !.finished = TRUE, !.resetAcc = TRUE],
         out |-> [k |-> "Reset"]]
 
-StopF(s)         == [st |-> [s EXCEPT !.stopPending = TRUE],  out |-> [k |-> "None"]]
-GetStopFrameF(s) == [st |-> [s EXCEPT !.stopPending = FALSE], out |-> [k |-> "StopFrame"]]
+(* STOP_SENDING bookkeeping.  The environment (the connection) asks for a
+   frame only while one is pending and reports the fate of a frame only for a
+   frame that was emitted (connection.py registers on_stop_sending_delivery as
+   the delivery handler of the packet that carries the frame); stopInFlight is
+   that environment's count of emitted frames whose fate is still unknown. *)
+StopF(s, c) == [st |-> [s EXCEPT !.stopPending = TRUE, !.stopCode = c], out |-> [k |-> "None"]]
+GetStopFrameOk(s) == s.stopPending /\ s.stopInFlight < F
+GetStopFrameF(s) == [st |-> [s EXCEPT !.stopPending = FALSE, !.stopInFlight = @ + 1],
+                     out |-> [k |-> "StopFrame", code |-> s.stopCode]]
+StopDeliveryOk(s) == s.stopInFlight > 0
 StopDeliveryF(s, acked) ==
-  [st |-> IF acked THEN s ELSE [s EXCEPT !.stopPending = TRUE], out |-> [k |-> "None"]]
+  [st |-> [s EXCEPT !.stopInFlight = @ - 1,
+                    !.stopPending = IF acked THEN @ ELSE TRUE],
+   out |-> [k |-> "None"]]
 
 Apply(r) == st' = r.st /\ out' = r.out
 
@@ -71,9 +83,9 @@ Init == st = InitState /\ out = [k |-> "None"]
 Next == \/ \E o \in 0..N, n \in 0..N, fin \in BOOLEAN :
              o + n <= N /\ Apply(HandleFrameF(st, o, n, fin))
         \/ \E fs \in 0..N : Apply(HandleResetF(st, fs))
-        \/ Apply(StopF(st))
-        \/ st.stopPending /\ Apply(GetStopFrameF(st))
-        \/ \E a \in BOOLEAN : Apply(StopDeliveryF(st, a))
+        \/ \E c \in Codes : Apply(StopF(st, c))
+        \/ GetStopFrameOk(st) /\ Apply(GetStopFrameF(st))
+        \/ \E a \in BOOLEAN : StopDeliveryOk(st) /\ Apply(StopDeliveryF(st, a))
 Spec == Init /\ [][Next]_vars
 
 ---------------------------------------------------------------------------
@@ -85,7 +97,10 @@ StateOk(s) == /\ s.delivered = Prefix(s.got)
               /\ \A o \in s.got : o < s.highest
               /\ (s.endSig => s.delivered = s.final)
               /\ (s.finished <=> (s.resetAcc \/ (s.final # NONE /\ s.delivered = s.final)))
-TypeOk == StateOk(st)
+\* STOP_SENDING bookkeeping (beyond the statement of C10): a frame is pending or
+\* in flight only after a stop() request, whose code it will carry
+StopOk(s) == (s.stopPending \/ s.stopInFlight > 0) => s.stopCode # NONE
+TypeOk == StateOk(st) /\ StopOk(st)
 
 \* the end marker is delivered only when all bytes up to the final size were
 EndOnlyAtFinal == [][(out'.k = "Data" /\ out'.end) =>
@@ -94,4 +109,6 @@ EndOnlyAtFinal == [][(out'.k = "Data" /\ out'.end) =>
 NoRepeat == [][out'.k = "Data" => Len(out'.bytes) = st'.delivered - st.delivered]_vars
 \* delivery never goes backwards; the final size never changes once fixed
 Monotone == [][st'.delivered >= st.delivered /\ (st.final # NONE => st'.final = st.final)]_vars
+\* a STOP_SENDING frame carries the code of the latest stop() request
+StopCarriesCode == [][out'.k = "StopFrame" => (out'.code = st.stopCode /\ out'.code \in Codes)]_vars
 ============================================================================
